@@ -21,6 +21,8 @@ from engine.src import FunctionInfo, own_nodes, own_nodes_incl_lambda, src_of, A
 from engine.util import is_self_attr, kwarg, const_value, enclosing_tests
 from engine.dataflow import ReachingDefs
 from .c01 import returns_self_on_all_paths
+from .sem import expander, ctext, want, xt, cond_want, conds_at, bind, calls, returns, stmt_of, self_attr_value_texts, guarded_values, paths, RAISE
+from engine.guards import cond_text
 
 RULES = {
     "C15.a": "learner wrapper: transform = method_(X) with only the 1-D -> column reshape; _set_method's name table maps each name to the model's bound method of the same name",
@@ -33,99 +35,189 @@ SM = "mlinsights.sklapi.sklearn_base_transform_stacking"
 TM = "mlinsights.mlmodel.transfer_transformer"
 
 
+def _fit_forward(ck, rule, repo, fi, call, recv_ok: bool, what: str):
+    """the wrapped model's fit receives (X, y=y, **kwargs) unchanged"""
+    ok = recv_ok and call is not None
+    if ok:
+        a = [src_of(x) for x in call.args]
+        kw = {k.arg: src_of(k.value) for k in call.keywords}
+        X, y = fi.named_params[1], fi.named_params[2]
+        okx = a[:1] == [X] or kw.get("X") == X
+        oky = (len(a) > 1 and a[1] == y) or kw.get("y") == y
+        okk = any(k.arg is None and src_of(k.value) == (fi.node.args.kwarg.arg if fi.node.args.kwarg else "kwargs") for k in call.keywords)
+        ok = okx and oky and okk and len(a) <= 2
+    ck.verdict(ok, rule, fi, call if call is not None else f"{what}.fit(X, y=y, **kwargs)", "the wrapped model is trained exactly as a direct fit would", "fit does not forward (X, y=y, **kwargs) unchanged to the wrapped model")
+
+
 def check_a(ck, repo):
     ci = repo.cls(LM, "SkBaseTransformLearner")
     tr, sm, fit = ci.methods["transform"], ci.methods["_set_method"], ci.methods["fit"]
-    body = sorted((s for s in own_nodes(tr.node) if isinstance(s, (ast.Assign, ast.Return, ast.If, ast.AugAssign, ast.Expr)) and not (isinstance(s, ast.Expr) and isinstance(s.value, ast.Constant))), key=lambda s: s.lineno)
-    t = [src_of(s) if not isinstance(s, ast.If) else "if " + src_of(s.test) for s in body]
-    want = ["res = self.method_(X)", "if len(res.shape) == 1", "res = res[:, numpy.newaxis]", "return res"]
-    ck.verdict(t == want, "C15.a", tr, " ; ".join(t), "output = method_(X), a 1-D result becomes one column, nothing else", f"transform does more (or less) than returning method_(X) with the 1-D -> column reshape: {t}")
-    # _set_method table
-    table: Dict[str, str] = {}
-    for s in own_nodes(sm.node):
-        if isinstance(s, ast.If) and isinstance(s.test, ast.Compare) and src_of(s.test.left) == sm.named_params[1] and isinstance(s.test.ops[0], ast.Eq):
-            name = const_value(s.test.comparators[0])
-            if isinstance(name, str) and len(s.body) == 1 and isinstance(s.body[0], ast.Assign):
-                table[name] = src_of(s.body[0])
+    # transform: method_(X), a 1-D result becomes one column, nothing else
+    X = tr.named_params[1]
+    M = f"self.method_({X})"
+    one_d = cond_text(f"len({M}.shape) == 1")
+    alt_1d = {cond_text(f"{M}.ndim == 1")}
+    ps = paths(tr)
+    ok = bool(ps)
+    seen = set()
+    for p in ps:
+        r = p.ret_text()
+        facts = set(p.conds)
+        is1 = one_d in facts or bool(alt_1d & facts)
+        isn = (one_d[0], False) in facts or any((a[0], False) in facts for a in alt_1d)
+        if is1 and r in (ctext(f"{M}[:, numpy.newaxis]"), ctext(f"{M}[:, None]"), ctext(f"{M}.reshape((-1, 1))"), ctext(f"{M}.reshape(-1, 1)")) and len(facts) == 1:
+            seen.add("col")
+        elif isn and r == ctext(M) and len(facts) == 1:
+            seen.add("asis")
+        else:
+            ok = False
+    ck.verdict(ok and seen == {"col", "asis"}, "C15.a", tr, " ; ".join(f"{sorted(p.conds)} -> {p.ret_text()}" for p in ps)[:200], "output = method_(X), a 1-D result becomes one column, nothing else", f"transform does more (or less) than returning method_(X) with the 1-D -> column reshape: {[(sorted(p.conds), p.ret_text()) for p in ps]}")
+    # _set_method: each name binds the model's method of the same name
+    mp = sm.named_params[1]
     for name in ("predict", "predict_proba", "decision_function", "transform"):
-        got = table.get(name)
-        ck.verdict(got == f"self.method_ = self.model.{name}", "C15.a", sm, f"'{name}' -> {got}", f"'{name}' binds the model's {name}", f"method name '{name}' is bound by `{got}`: transform would return another method's output")
-    callable_branch = [s for s in own_nodes(sm.node) if isinstance(s, ast.If) and src_of(s.test) == f"callable({sm.named_params[1]})"]
-    ck.verdict(len(callable_branch) == 1 and src_of(callable_branch[0].body[0]) == f"self.method_ = {sm.named_params[1]}", "C15.a", sm, "callable(method) -> self.method_ = method", "a callable is used as is", "callable methods are not stored as given")
+        ps = paths(sm, {mp: name})
+        got = [ast.unparse(p.stores.get("self.method_")) if "self.method_" in p.stores else (p.raised or "nothing") for p in ps]
+        ck.verdict(got == [f"self.model.{name}"], "C15.a", sm, f"'{name}' -> {got}", f"'{name}' binds the model's {name}", f"method name '{name}' is bound to {got}: transform would return another method's output")
+    # a callable is stored as given (evaluated with an opaque, callable argument)
+    ps = [p for p in paths(sm) if (f"callable({mp})", True) in p.conds and (f"isinstance({mp}, str)", False) in p.conds]
+    got = [ast.unparse(p.stores.get("self.method_")) if "self.method_" in p.stores else (p.raised or "nothing") for p in ps]
+    ck.verdict(got == [mp], "C15.a", sm, f"callable(method) -> {got}", "a callable is used as is", "callable methods are not stored as given")
     # fit
-    calls = [c for c in own_nodes_incl_lambda(fit.node) if isinstance(c, ast.Call) and src_of(c.func) == "self.model.fit"]
-    ok = len(calls) == 1 and [src_of(a) for a in calls[0].args] == ["X"] and src_of(kwarg(calls[0], "y")) == "y" and any(k.arg is None and src_of(k.value) == "kwargs" for k in calls[0].keywords)
-    ck.verdict(ok, "C15.a", fit, calls[0] if calls else "self.model.fit(X, y=y, **kwargs)", "the wrapped model is trained exactly as a direct fit would", "fit does not forward (X, y=y, **kwargs) unchanged to the wrapped model")
+    cs = calls(fit, lambda c: isinstance(c.func, ast.Attribute) and c.func.attr == "fit")
+    _fit_forward(ck, "C15.a", repo, fit, cs[0] if len(cs) == 1 else None, len(cs) == 1 and src_of(cs[0].func.value) == "self.model" and not conds_at(repo, fit, cs[0]), "self.model")
     returns_self_on_all_paths(ck, "C15.a", fit, repo, "SkBaseTransformLearner.fit")
-    # default method resolution in __init__ (order of preference documented: predict_proba, then predict, ...)
+    # the bound method is set at construction, from the resolved method name
     init = ci.methods["__init__"]
-    st = [src_of(s) for s in own_nodes(init.node) if isinstance(s, ast.Expr)]
-    ck.verdict("self._set_method(method)" in st, "C15.a", init, "self._set_method(method)", "the bound method is set at construction", "constructor does not bind the method")
+    sc = calls(init, lambda c: src_of(c.func) == "self._set_method")
+    okc = len(sc) == 1 and len(sc[0].args) == 1 and not [c_ for c_ in conds_at(repo, init, sc[0]) if "method" not in c_[0] and "model" not in c_[0]]
+    ck.verdict(okc, "C15.a", init, sc[0] if sc else "self._set_method(method)", "the bound method is set at construction", "constructor does not bind the method")
 
 
 def check_b(ck, repo):
     ci = repo.cls(SM, "SkBaseTransformStacking")
     tr, fit = ci.methods["transform"], ci.methods["fit"]
-    t = [src_of(s) for s in sorted((x for x in own_nodes(tr.node) if isinstance(x, (ast.Assign, ast.Return))), key=lambda x: x.lineno)]
-    ck.verdict(t == ["Xs = [m.transform(X) for m in self.models]", "return numpy.hstack(Xs)"], "C15.b", tr, " ; ".join(t), "column concatenation of the members' outputs in model order", f"stacking transform is not hstack([m.transform(X) for m in self.models]): {t}")
+    X = tr.named_params[1]
+    ps = paths(tr)
+    okt = False
+    if len(ps) == 1 and not ps[0].conds and ps[0].ret not in (None, RAISE):
+        r = ps[0].ret
+        if isinstance(r, ast.Call) and ast.unparse(r.func) in ("numpy.hstack", "numpy.column_stack") and len(r.args) == 1 and isinstance(r.args[0], (ast.ListComp, ast.GeneratorExp)) or isinstance(r, ast.Call) and ast.unparse(r.func) in ("numpy.hstack",) and len(r.args) == 1 and isinstance(r.args[0], ast.Call) and ast.unparse(r.args[0].func) in ("list", "tuple") and r.args[0].args and isinstance(r.args[0].args[0], ast.GeneratorExp):
+            comp = r.args[0] if isinstance(r.args[0], (ast.ListComp, ast.GeneratorExp)) else r.args[0].args[0]
+            if len(comp.generators) == 1 and not comp.generators[0].ifs and ast.unparse(comp.generators[0].iter) == "self.models" and isinstance(comp.generators[0].target, ast.Name):
+                v = comp.generators[0].target.id
+                okt = ast.unparse(comp.elt) == f"{v}.transform({X})"
+    ck.verdict(okt, "C15.b", tr, ps[0].ret_text() if ps else "transform", "column concatenation of the members' outputs in model order", f"stacking transform is not hstack([m.transform(X) for m in self.models]): {[p.ret_text() for p in ps]}")
     loops = [l for l in own_nodes(fit.node) if isinstance(l, ast.For)]
-    ok = len(loops) == 1 and src_of(loops[0].iter) == "self.models" and len(loops[0].body) == 1 and src_of(loops[0].body[0]) == f"{src_of(loops[0].target)}.fit(X, y=y, **kwargs)"
-    ck.verdict(ok, "C15.b", fit, loops[0] if loops else "for m in self.models: m.fit(X, y=y, **kwargs)", "every member is trained on (X, y, kwargs) unchanged", "fit does not train every member with (X, y=y, **kwargs)")
+    ok = len(loops) == 1 and src_of(loops[0].iter) == "self.models" and isinstance(loops[0].target, ast.Name)
+    call = None
+    if ok:
+        cs = [c for c in ast.walk(loops[0]) if isinstance(c, ast.Call) and isinstance(c.func, ast.Attribute) and c.func.attr == "fit"]
+        ok = len(cs) == 1 and src_of(cs[0].func.value) == loops[0].target.id and conds_at(repo, fit, cs[0]) == conds_at(repo, fit, loops[0].body[0]) and not conds_at(repo, fit, loops[0])
+        call = cs[0] if cs else None
+    _fit_forward(ck, "C15.b", repo, fit, call, ok, "member")
     returns_self_on_all_paths(ck, "C15.b", fit, repo, "SkBaseTransformStacking.fit")
-    # conversion keeps order: res = list(map(lambda c: convert2transform(c, new_learners), zip(models, method)))
+    # conversion keeps order and pairs model i with method i
     init = ci.methods["__init__"]
-    conv = [s for s in own_nodes(init.node) if isinstance(s, ast.Assign) and src_of(s.targets[0]) == "res"]
-    ck.verdict(len(conv) == 1 and src_of(conv[0].value) == "list(map(lambda c: convert2transform(c, new_learners), zip(models, method)))", "C15.b", init, conv[0] if conv else "res = list(map(...zip(models, method)))", "models are converted one by one, in order, with their own method", "the conversion of learners into transforms no longer pairs model i with method i in order")
+    ex = expander(repo)
     c2t = repo.nested(init, "convert2transform")
-    r = sorted(src_of(x.value) for x in own_nodes(c2t.node) if isinstance(x, ast.Return))
-    ck.verdict(r == sorted(["m", "res", "m", "res"]), "C15.b", c2t, f"returns {r}", "a transform is kept, a learner is wrapped", f"convert2transform returns {r}")
-    wraps = sorted(src_of(c) for c in own_nodes_incl_lambda(c2t.node) if isinstance(c, ast.Call) and src_of(c.func) == "SkBaseTransformLearner")
-    ck.verdict(wraps == sorted(["SkBaseTransformLearner(m.model, me)", "SkBaseTransformLearner(m, me)"]), "C15.b", c2t, f"{wraps}", "learners are wrapped with the requested method", f"wrapping calls are {wraps}")
+    convs = calls(init, lambda c: src_of(c.func) == "convert2transform")
+    okc = False
+    if len(convs) == 1:
+        c = convs[0]
+        # where the (model, method) pair comes from: zip(models, method) in order
+        comp = next((p_ for p_ in _parents(c) if isinstance(p_, (ast.ListComp, ast.GeneratorExp, ast.Lambda, ast.Call))), None)
+        src = None
+        for p_ in _parents(c):
+            if isinstance(p_, (ast.ListComp, ast.GeneratorExp)) and len(p_.generators) == 1 and not p_.generators[0].ifs:
+                src = p_.generators[0].iter
+                break
+            if isinstance(p_, ast.Call) and src_of(p_.func) == "map" and len(p_.args) == 2:
+                src = p_.args[1]
+                break
+        okc = src is not None and ex.text(src, init, stmt_of(c)).replace(" ", "") in ("zip(models,method)",)
+        # the result is a list in that order, stored as the models
+        st = stmt_of(c)
+        okc = okc and isinstance(st, ast.Assign)
+    ck.verdict(okc, "C15.b", init, convs[0] if convs else "convert2transform(...) over zip(models, method)", "models are converted one by one, in order, with their own method", "the conversion of learners into transforms no longer pairs model i with method i in order")
+    # convert2transform: a transform is kept, a learner is wrapped with the requested method
+    ps = paths(c2t)
+    mparam = c2t.named_params[0]
+    pair = len(c2t.named_params) == 2  # (pair, new_learners) or (model, method, new_learners)
+    m_t = f"{mparam}[0]" if pair else mparam
+    me_t = f"{mparam}[1]" if pair else c2t.named_params[1]
+    rets = sorted(set(p.ret_text() for p in ps if p.ret not in (None, RAISE)))
+    allowed = {m_t, ctext(f"SkBaseTransformLearner({m_t}.model, {me_t})"), ctext(f"SkBaseTransformLearner({m_t}, {me_t})")}
+    ck.verdict(bool(rets) and set(rets) <= allowed and len(rets) >= 2, "C15.b", c2t, f"returns {rets}", "a transform is kept, a learner is wrapped with the requested method", f"convert2transform returns {rets}; expected the model itself or SkBaseTransformLearner(model, its method)")
+
+
+def _parents(n):
+    p = getattr(n, "_parent", None)
+    while p is not None:
+        yield p
+        p = getattr(p, "_parent", None)
 
 
 def check_c(ck, repo):
     ci = repo.cls(TM, "TransferTransformer")
     fit, tr = ci.methods["fit"], ci.methods["transform"]
-    calls = [c for c in own_nodes_incl_lambda(fit.node) if isinstance(c, ast.Call) and isinstance(c.func, ast.Attribute) and c.func.attr in ("fit", "partial_fit", "fit_transform", "fit_predict")]
-    if not calls:
+    ex = expander(repo)
+    X, y, sw = fit.named_params[1:4]
+    cs = calls(fit, lambda c: isinstance(c.func, ast.Attribute) and c.func.attr in ("fit", "partial_fit", "fit_transform", "fit_predict"))
+    if not cs:
         ck.unknown("C15.c", fit, ".fit(...)", "no fit call found (trainable has no effect?)")
-    for c in calls:
-        tests = enclosing_tests(c, fit.node)
-        guarded = any(is_self_attr(t, "trainable") and pol for t, pol in tests)
-        ck.verdict(guarded, "C15.c", fit, c, "the wrapped estimator is refitted only when trainable", "a .fit call is reachable when trainable is False: fit changes the wrapped estimator and its predictions")
+    forms = set()
+    for c in cs:
+        conds = conds_at(repo, fit, c)
+        ck.verdict(cond_text("self.trainable") in conds, "C15.c", fit, c, "the wrapped estimator is refitted only when trainable", "a .fit call is reachable when trainable is False: fit changes the wrapped estimator and its predictions")
         ck.verdict(src_of(c.func.value) == "self.estimator_", "C15.c", fit, f"receiver {src_of(c.func.value)}", "the object trained is estimator_ (the copy when copy_estimator)", f"{src_of(c.func.value)} is trained instead of self.estimator_: with copy_estimator the original object is modified")
-    # data forwarded unchanged
-    sigs = sorted(", ".join(src_of(a) for a in c.args) + "|" + ",".join(f"{k.arg}={src_of(k.value)}" for k in c.keywords) for c in calls)
-    ck.verdict(sigs == sorted(["X, y, sample_weight|", "X, y|", "X|sample_weight=sample_weight", "X|"]), "C15.c", fit, f"fit argument forms {sigs}", "X, y, sample_weight forwarded unchanged according to the wrapped signature", f"fit call forms changed: {sigs}")
+        # which signature tests select this call, and what it forwards
+        takes_y = any(t == "'y' in inspect.signature(self.estimator_.fit).parameters" and pol for t, pol in conds)
+        takes_w = any(t == "'sample_weight' in inspect.signature(self.estimator_.fit).parameters" and pol for t, pol in conds)
+        b = bind(c, ["X", "y", "sample_weight"])
+        got = {k: src_of(v) for k, v in b.items()}
+        want_ = {"X": X}
+        if takes_y:
+            want_["y"] = y
+        if takes_w:
+            want_["sample_weight"] = sw
+        forms.add((takes_y, takes_w))
+        ck.verdict(got == want_, "C15.c", fit, f"{src_of(c)} where takes_y={takes_y}, takes_weight={takes_w}", "X, y, sample_weight forwarded unchanged according to the wrapped signature", f"the wrapped fit receives {got} where its signature {'has' if takes_y else 'lacks'} y and {'has' if takes_w else 'lacks'} sample_weight: expected {want_}")
+    ck.verdict(forms == {(True, True), (True, False), (False, True), (False, False)}, "C15.c", fit, f"signature cases {sorted(forms)}", "all four signature cases of the wrapped fit are handled", f"fit call forms changed: cases {sorted(forms)}")
     # estimator_ provenance
-    asg = [s for s in own_nodes(fit.node) if isinstance(s, ast.Assign) and any(is_self_attr(t, "estimator_") for t in s.targets)]
+    T, F = cond_text("self.copy_estimator"), cond_text("self.copy_estimator", False)
     by_guard = {}
-    for s in asg:
-        tests = enclosing_tests(s, fit.node)
-        g = [pol for t, pol in tests if is_self_attr(t, "copy_estimator")]
-        by_guard[g[0] if g else None] = src_of(s.value)
+    for st, txt in self_attr_value_texts(repo, fit, "estimator_"):
+        conds = conds_at(repo, fit, st)
+        for c_, x_, _ in guarded_values(repo, fit, st.value, st, conds) if isinstance(st, ast.Assign) and len(st.targets) == 1 else [(conds, None, st)]:
+            key = True if T in c_ else (False if F in c_ else None)
+            by_guard[key] = xt(x_) if x_ is not None else txt
     ck.verdict(by_guard.get(True) == "clone_with_fitted_parameters(self.estimator)", "C15.c", fit, f"copy_estimator -> {by_guard.get(True)}", "with copy_estimator the wrapped estimator is deep-copied with its fitted state", "with copy_estimator=True estimator_ is not a fitted copy of the estimator: the original object can be modified")
     ck.verdict(by_guard.get(False) == "self.estimator", "C15.c", fit, f"no copy -> {by_guard.get(False)}", "without copy the given object is used", "without copy_estimator estimator_ is not the given estimator")
     ck.verdict(set(by_guard) == {True, False}, "C15.c", fit, "estimator_ assigned in both branches of copy_estimator", "estimator_ is set on every path", "estimator_ is not assigned on every path of fit (stale copy from a previous fit)")
-    # no other write to self.estimator / its attributes
     other = [s for s in own_nodes(fit.node) if isinstance(s, (ast.Assign, ast.AugAssign)) and any(src_of(t).startswith("self.estimator.") or src_of(t) == "self.estimator" for t in (s.targets if isinstance(s, ast.Assign) else [s.target]))]
     ck.verdict(not other, "C15.c", fit, other[0] if other else "no write to self.estimator", "the hyper-parameter object is never written", "fit writes into the estimator given as hyper-parameter")
     returns_self_on_all_paths(ck, "C15.c", fit, repo, "TransferTransformer.fit")
-    t = [src_of(s) for s in sorted((x for x in own_nodes(tr.node) if isinstance(x, (ast.Assign, ast.Return))), key=lambda x: x.lineno)]
-    ck.verdict(t == ["meth = getattr(self.estimator_, self.method)", "return meth(X)"], "C15.c", tr, " ; ".join(t), "output is exactly the wrapped method's output", f"transform is not getattr(self.estimator_, self.method)(X): {t}")
-    # the copying helper does not alias (decided by C04.c); the default method preference order
+    ps = paths(tr)
+    Xt = tr.named_params[1]
+    got = [(sorted(p.conds), p.ret_text()) for p in ps]
+    ck.verdict(got == [([], f"getattr(self.estimator_, self.method)({Xt})")], "C15.c", tr, f"{got}", "output is exactly the wrapped method's output", f"transform is not getattr(self.estimator_, self.method)(X): {got}")
+    # default method: the first of transform, predict_proba, decision_function, predict the estimator has
     init = ci.methods["__init__"]
-    order = [const_value(s.test.args[1]) for s in own_nodes(init.node) if isinstance(s, ast.If) and isinstance(s.test, ast.Call) and src_of(s.test.func) == "hasattr" and src_of(s.test.args[0]) == "estimator"]
-    order = sorted(order, key=lambda x: ["transform", "predict_proba", "decision_function", "predict"].index(x) if x in ["transform", "predict_proba", "decision_function", "predict"] else 99)
-    chain = []
-    cur = [s for s in own_nodes(init.node) if isinstance(s, ast.If) and src_of(s.test) == "method is None"]
-    if cur:
-        node = cur[0].body[0]
-        while isinstance(node, ast.If):
-            chain.append((const_value(node.test.args[1]) if isinstance(node.test, ast.Call) else None, src_of(node.body[0])))
-            node = node.orelse[0] if node.orelse else None
-    ok = [c[0] for c in chain] == ["transform", "predict_proba", "decision_function", "predict"] and all(c[1] == f"method = '{c[0]}'" for c in chain)
-    ck.verdict(ok, "C15.c", init, f"default method chain {chain}", "default method: transform, predict_proba, decision_function, predict — each test sets its own name", "default method resolution sets a name different from the attribute it tested")
+    order = ["transform", "predict_proba", "decision_function", "predict"]
+    ps = [p for p in paths(init, {"method": None}) if p.ret != RAISE]
+    okd = True
+    seen = []
+    for p in ps:
+        m = p.stores.get("self.method")
+        if not (isinstance(m, ast.Constant) and isinstance(m.value, str)):
+            okd = False
+            continue
+        name = m.value
+        has = {t.split("'")[1]: pol for t, pol in p.conds if t.startswith("hasattr(estimator, '")}
+        # the chosen name is one the estimator has, and every preferred name before it is absent
+        okd = okd and name in order and has.get(name) is True and all(has.get(o) is False for o in order[: order.index(name)])
+        seen.append(name)
+    ck.verdict(okd and sorted(seen) == sorted(order), "C15.c", init, f"default method by paths: {seen}", "default method: transform, predict_proba, decision_function, predict - each test sets its own name", "default method resolution sets a name different from the attribute it tested, or the preference order changed")
 
 
 def run(ck):
